@@ -3,6 +3,7 @@ import MoneroModel.Proofs.GroupInstance
 import MoneroModel.Proofs.EdwardsLawful
 import MoneroModel.Proofs.EdwardsTorsion8
 import MoneroModel.Proofs.GroupRefine
+import MoneroModel.Proofs.GroupRefineScan
 /-! C10 — "Key derivation is Monero's cofactor-cleared Diffie-Hellman for every curve point".
 About the model `Monero.derive` / `Monero.oneTimeKey` (Model/Crypto.lean: `KeyGenerator::{from_key, from_random, one_time_key,
 get_rvn_scalar}` at HEAD of /repo, i.e. after the fix commit) and the by-the-book sender `Spec.Sender`. Every theorem holds
@@ -316,5 +317,12 @@ theorem C10_driver_refines (a : ℕ) (ha : a < 2 ^ 260) (B S K : Ed.Pt) (hB : Va
     refines_enc_oneTimeKey_derive refOps_refines_edOps a ha B S hB hS n, ?_, ?_⟩
   · rw [refines_rvnScalar refOps_refines_edOps _ hD, eD]
   · rw [refines_keyGenCheck refOps_refines_edOps _ S K hD hS hK n, eD]
+/-- … and `SubKeyChecker::new(..).check(n, key, R)` (`c10_subcheck`: model side only, used by the C09–C11 families): the index the
+driver prints is the index `Checker.check` returns on the lawful instance -/
+theorem C10_driver_refines_subcheck (v : ℕ) (hv : v < 2 ^ 260) (S K R : Ed.Pt) (hS : Valid S) (hK : Valid K) (hR : Valid R)
+    (a b c d n : ℕ) :
+    (Scan.Checker.new Drv.refOps v S a b c d).check Drv.refOps n K R
+      = (Scan.Checker.new edOps v (toPoint S hS) a b c d).check edOps n (toPoint K hK) (toPoint R hR) :=
+  refines_checkerCheck refOps_refines_edOps v hv S hS a b c d n K R hK hR
 end Ed25519
 end C10
